@@ -21,7 +21,7 @@ fn main() {
     let args: Vec<String> = std::env::args().skip(1).collect();
     if args.is_empty() {
         eprintln!("usage: bwmc <ID> [--tier quick|thorough] [--replay <file>]");
-        std::process::exit(2);
+        exit(2);
     }
     let id = args[0].clone();
     let mut tier = match std::env::var("VERIF_TIER").as_deref() {
@@ -39,7 +39,7 @@ fn main() {
                     Some("thorough") => Tier::Thorough,
                     other => {
                         eprintln!("unknown tier {other:?}");
-                        std::process::exit(2);
+                        exit(2);
                     }
                 };
             }
@@ -49,7 +49,7 @@ fn main() {
             }
             other => {
                 eprintln!("unknown argument {other}");
-                std::process::exit(2);
+                exit(2);
             }
         }
         i += 1;
@@ -82,7 +82,7 @@ fn main() {
     }
     let Some(prop) = props::lookup(&id) else {
         eprintln!("unknown property {id}");
-        std::process::exit(2);
+        exit(2);
     };
     let sink = Arc::new(Sink::new());
 
@@ -96,11 +96,11 @@ fn main() {
     if let Some(path) = replay {
         let text = std::fs::read_to_string(&path).unwrap_or_else(|e| {
             eprintln!("cannot read replay file {}: {e}", path.display());
-            std::process::exit(2);
+            exit(2);
         });
         let value: Value = serde_json::from_str(&text).unwrap_or_else(|e| {
             eprintln!("replay file is not JSON: {e}");
-            std::process::exit(2);
+            exit(2);
         });
         let input = value.get("input").cloned().unwrap_or(value.clone());
         (prop.replay)(&cfg, &input, &sink);
@@ -111,7 +111,7 @@ fn main() {
         let second: Vec<String> = sink2.failures().keys().cloned().collect();
         if first != second {
             eprintln!("MACHINERY: replay diverged: {first:?} vs {second:?}");
-            std::process::exit(2);
+            exit(2);
         }
         for (fingerprint, (_, failures)) in sink.failures() {
             for f in failures {
@@ -120,10 +120,10 @@ fn main() {
         }
         if first.is_empty() {
             println!("REPLAY-HOLDS property={id}");
-            std::process::exit(0);
+            exit(0);
         }
         println!("VIOLATION property={id} replay={}", path.display());
-        std::process::exit(1);
+        exit(1);
     }
 
     if tier == Tier::Thorough {
@@ -174,14 +174,14 @@ fn main() {
         for m in &machinery {
             eprintln!("MACHINERY: {m}");
         }
-        std::process::exit(2);
+        exit(2);
     }
     let cov = &evidence["coverage"];
     eprintln!(
         "[{id} {}] states={} transitions={} executions={} distinct_outcomes={} violations={} known={} wall={:.1}s",
         tier.name(), cov["states"], cov["transitions"], cov["traces_validated_against_impl"], cov["distinct_outcomes"], violations, known_hit.len(), wall_s
     );
-    std::process::exit(if violations > 0 { 1 } else { 0 });
+    exit(if violations > 0 { 1 } else { 0 });
 }
 
 /// Runs the exploration in a child process. A child that exits normally has done everything
@@ -200,7 +200,7 @@ fn supervise(cfg: &Cfg, id: &str, tier: Tier) -> ! {
         .expect("spawn child");
     let finish = |code: i32| -> ! {
         let _ = std::fs::remove_dir_all(&slot_dir);
-        std::process::exit(code)
+        exit(code)
     };
     match status.code() {
         Some(code) if code != crate::core::EXIT_HANG && code != 101 && code != 134 => finish(code),
@@ -250,6 +250,12 @@ fn supervise(cfg: &Cfg, id: &str, tier: Tier) -> ! {
     finish(2)
 }
 
+/// Exits after removing this process's scratch directories.
+fn exit(code: i32) -> ! {
+    cli::cleanup_scratch();
+    std::process::exit(code)
+}
+
 fn sanitize(s: &str) -> String {
     let mut out: String = s.chars().map(|c| if c.is_ascii_alphanumeric() || c == '-' || c == '_' || c == '.' { c } else { '_' }).collect();
     if out.len() > 120 {
@@ -288,7 +294,7 @@ fn load_known(cfg: &Cfg, id: &str) -> Vec<(Matcher, String)> {
     };
     let Ok(value) = serde_json::from_str::<Value>(&text) else {
         eprintln!("MACHINERY: known_findings.json is not valid JSON");
-        std::process::exit(2);
+        exit(2);
     };
     value["known"]
         .as_array()
